@@ -1257,44 +1257,38 @@ func (f *fragment) maxUnsigned(filter *Row, bitDepth uint) (max int64, count uin
 	return max, count
 }
 
-// minRow returns minRowID of the rows in the filter and its count.
-// if filter is nil, it returns fragment.minRowID, 1
-// if fragment has no rows, it returns 0, 0
+// minRow returns the smallest row that has a bit (within the filter, if given) and
+// the number of its columns within the filter.
+// if filter is nil, it returns the smallest row that has a bit, 1
+// if no row qualifies, it returns 0, 0
+//
+// The candidate rows are the rows that currently hold a bit (fragment.rows), not the
+// range up to the maxRowID high-water mark: that mark is only raised by single-bit
+// sets (not by imports or Store) and never lowered when rows are cleared.
 func (f *fragment) minRow(filter *Row) (uint64, uint64) {
-	minRowID, hasRowID := f.minRowID()
-	if hasRowID {
+	for _, rowID := range f.rows(0) {
 		if filter == nil {
-			return minRowID, 1
+			return rowID, 1
 		}
-		// iterate from min row ID and return the first that intersects with filter.
-		for i := minRowID; i <= f.maxRowID; i++ {
-			row := f.row(i).Intersect(filter)
-			count := row.Count()
-			if count > 0 {
-				return i, count
-			}
+		if count := f.row(rowID).Intersect(filter).Count(); count > 0 {
+			return rowID, count
 		}
 	}
 	return 0, 0
 }
 
-// maxRow returns maxRowID of the rows in the filter and its count.
-// if filter is nil, it returns fragment.maxRowID, 1
-// if fragment has no rows, it returns 0, 0
+// maxRow returns the largest row that has a bit (within the filter, if given) and
+// the number of its columns within the filter.
+// if filter is nil, it returns the largest row that has a bit, 1
+// if no row qualifies, it returns 0, 0
 func (f *fragment) maxRow(filter *Row) (uint64, uint64) {
-	minRowID, hasRowID := f.minRowID()
-	if hasRowID {
+	rowIDs := f.rows(0)
+	for i := len(rowIDs) - 1; i >= 0; i-- {
 		if filter == nil {
-			return f.maxRowID, 1
+			return rowIDs[i], 1
 		}
-		// iterate back from max row ID and return the first that intersects with filter.
-		// TODO: implement reverse container iteration to improve performance here for sparse data. --Jaffee
-		for i := f.maxRowID; i >= minRowID; i-- {
-			row := f.row(i).Intersect(filter)
-			count := row.Count()
-			if count > 0 {
-				return i, count
-			}
+		if count := f.row(rowIDs[i]).Intersect(filter).Count(); count > 0 {
+			return rowIDs[i], count
 		}
 	}
 	return 0, 0
